@@ -44,7 +44,9 @@ func newCacheJanitor[MetadataT any](cfg *config.Config, interval time.Duration, 
 		cfg:             cfg,
 	}
 
-	j.subs.Add(cfg.Cache.CleanupInterval.OnChange(func(newInterval duration.Duration) {
+	j.subs.Add(cfg.Cache.CleanupInterval.OnChange(func(duration.Duration) {
+		// Notifications may arrive out of order: pass on the value that is current now.
+		newInterval := cfg.Cache.CleanupInterval.Read()
 		slog.Info("Cache cleanup interval changed", "new_interval", newInterval)
 		j.intervalChanged <- newInterval.Cast()
 	}))
@@ -72,8 +74,9 @@ func (j *cacheJanitor[MetadataT]) start(ctx context.Context) {
 				metrics.Global.Cache.CleanupRuns.Increment()
 				verifhook.At("janitor.cycle.done", nil)
 				slog.Info("Cache cleanup cycle complete")
-			case newInterval := <-j.intervalChanged:
-				j.interval = newInterval
+			case <-j.intervalChanged:
+				// Change signals may arrive out of order: use the interval that is configured now.
+				j.interval = j.cfg.Cache.CleanupInterval.Read().Cast()
 				ticker.Reset(j.interval)
 				verifhook.At("janitor.interval.applied", j.interval)
 				slog.Info("Cache cleanup ticker reset", "new_interval", j.interval)
